@@ -3,8 +3,9 @@
   `Client.pollNext` models `Framed<_, ImapCodec>::poll_next` (tokio-util read loop + `ImapCodec::decode`),
   driven by an arbitrary script of transport read outcomes (data chunks of any size, Pending, EOF).
   `Framed.ideal` is the one-shot parse of a whole byte stream.
-  Stated for runs in which no poll reports an error (after an error the connection is unusable);
-  the terminal item at EOF (clean end vs. `bytes remaining`) is covered by the correspondence only.
+  The run invariant is stated for runs in which no poll reports an error (after an error the
+  connection is unusable); the terminal behaviour (end of file, malformed bytes, the poll after an
+  error) is covered by the one-poll theorems at the end of the file.
 -/
 import ImapVerif.Proofs.Framed
 
@@ -78,5 +79,60 @@ example : (polls 1 {} [.data (b!"* OK [M"), .data (b!"ail] x\r\n")]).1.length = 
 example : framesOf (polls 2 {} [.data (b!"* OK [M"), .data (b!"ail] x\r\n")]).1
     = ideal (b!"* OK [Mail] x\r\n") := by rfl
 example : (ideal (b!"* OK [Mail] x\r\n* 1 EXISTS\r\n* 2 EXI")).length = 2 := by rfl
+
+/-! ### the terminal item: what the stream yields when the peer closes -/
+
+/-- **end of stream after a quiet moment**: the stream has reported Pending-worthy state (nothing
+    decodable left, `Settled`), then the transport reports end of file.  The stream ends cleanly
+    (`None`) exactly when the buffer is empty; left-over bytes (a partial response) yield an error
+    item ("bytes remaining on stream"), never a silent end and never a made-up frame. -/
+theorem eof_after_settled (s : Rd) (rs : List REv) (hr : s.readable = false) (he : s.errored = false)
+    (hf : s.eof = false) (hs : Settled s) :
+    pollNext s (.eof :: rs) =
+      if s.rbuf.isEmpty then (.done, { s with eof := true, readable := false }, rs, 1)
+      else (.item .error, { s with eof := true, readable := true, errored := true }, rs, 1) := by
+  have hnone : decodeC s.rbuf = .none := hs hr
+  unfold pollNext
+  rw [pollNextGo]
+  simp only [decodePhase, he, hr, hf]
+  simp only [Bool.false_eq_true, if_false]
+  rw [pollNextGo]
+  by_cases hb : s.rbuf = [] <;> simp [decodePhase, he, hf, hnone, hb, decodeC_nil]
+
+/-- **at end of file, complete responses still come first**: with the end-of-file flag set and bytes
+    in the buffer, every poll delivers the next frame while the buffer starts with a complete
+    response; only then the verdict of `eof_after_settled` applies -/
+theorem eof_delivers_frames_first (s : Rd) (rs : List REv) (f : Frame) (rest : Bytes)
+    (he : s.errored = false) (hr : s.readable = true) (hf : s.eof = true)
+    (hd : decodeC s.rbuf = .frame f rest) :
+    pollNext s rs = (.item (.frame f), { s with rbuf := rest }, rs, 0) := by
+  unfold pollNext
+  rw [pollNextGo]
+  simp [decodePhase, he, hr, hf, hd]
+
+/-- at end of file with nothing decodable: clean end iff the buffer is empty -/
+theorem eof_verdict (s : Rd) (rs : List REv) (he : s.errored = false) (hr : s.readable = true) (hf : s.eof = true)
+    (hd : decodeC s.rbuf = .none) :
+    pollNext s rs =
+      if s.rbuf.isEmpty then (.done, { s with readable := false }, rs, 0)
+      else (.item .error, { s with errored := true }, rs, 0) := by
+  unfold pollNext
+  rw [pollNextGo]
+  by_cases hb : s.rbuf = [] <;> simp [decodePhase, he, hr, hf, hd, hb, decodeC_nil]
+
+/-- malformed bytes are an error item, at end of file or before it -/
+theorem malformed_is_error (s : Rd) (rs : List REv) (he : s.errored = false) (hr : s.readable = true)
+    (hd : decodeC s.rbuf = .error) :
+    pollNext s rs = (.item .error, { s with errored := true }, rs, 0) := by
+  unfold pollNext
+  rw [pollNextGo]
+  cases hf : s.eof <;> simp [decodePhase, he, hr, hf, hd]
+
+/-- after an error item the next poll ends the stream (`None`); nothing is read or decoded -/
+theorem after_error_ends (s : Rd) (rs : List REv) (he : s.errored = true) :
+    pollNext s rs = (.done, { s with readable := false, errored := false }, rs, 0) := by
+  unfold pollNext
+  rw [pollNextGo]
+  simp [decodePhase, he]
 
 end C04
